@@ -46,6 +46,17 @@ def pool(run, n):
         for d in ("HIVE", "MYSQL", "DEFAULT", "DB2", "HIVE", "ORACLE"):
             reqs.insert(run.rng.randrange(len(reqs) + 1), sqlgen.parse_request("statements", d, q))
             reqs.insert(run.rng.randrange(len(reqs) + 1), stmt.print_request("statements", d, run.rng.choice(["HIVE", "MYSQL", "DB2"]), q))
+    # the same text handed to both shipped parser / lexer classes (a '#' means different things to them), valid and invalid, in both orders
+    for q in ["SELECT a FROM t # c\n", "SELECT a, #{p} FROM t", "SELECT 1 # {x}\n FROM t -- #{y}", "SELECT a FROM t WHERE b = #{v} AND c = 1", "SELECT #", "SELECT a FROM t WHERE b == #{v}",
+              "SELECT '#{q}' FROM t WHERE a = 1"]:
+        for d in ("DEFAULT", "HIVE"):
+            for mb in (0, 1, 0, 1):
+                reqs.insert(run.rng.randrange(len(reqs) + 1), sqlgen.parse_request("statements", d, q, bool(mb)))
+        for mb in (0, 1, 1, 0):
+            reqs.insert(run.rng.randrange(len(reqs) + 1), "LEX %d 7 %s" % (mb, stmt.cps(q)))
+    # interpreter-wide settings, observed between the other requests
+    for _ in range(12):
+        reqs.insert(run.rng.randrange(len(reqs) + 1), "STATE")
     return reqs
 
 
@@ -101,7 +112,7 @@ def run(run):
         compare("PYTHONHASHSEED=%d" % hs, reqs, answers_single(reqs, hashseed=hs))
         runs += 1
     # tie: the models answer the modelled request kinds of the pool
-    modelled = [r for r in reqs if not r.startswith("LINEAGEO")]
+    modelled = [r for r in reqs if not r.startswith(("LINEAGEO", "STATE"))]
     mo = core.run_model(modelled)
     dis += stmt.tie(run, "pool on the models", modelled, mo, [ref[r] for r in modelled], modelled)
     kinds = {}
